@@ -144,7 +144,6 @@ theorem c17_genesis (s fresh : App) :
 theorem c17_initChain (g : Genesis) (u : List (Nat × Int)) (s : App) (h : App.initChain g = .ok (u, s)) :
     s.cached = s.lastTotal.toNat ∧ s.absCh = 0 := by
   unfold App.initChain at h
-  dsimp only at h
   split at h
   · cases h
   · split at h
